@@ -1374,7 +1374,7 @@ ec_point_proj_fpx_comb1t_mult(ec_point_proj_p point,
     ec_point_proj_fpx_comb1t_mult_data_p mult_data, bn_p d, ec_curve_p curve) {
 	ssize_t i;
 	size_t bit_off;
-	bn_digit_t windex;
+	size_t windex;
 
 	if (NULL == point || NULL == d || NULL == mult_data || NULL == curve)
 		return (EINVAL);
@@ -1468,7 +1468,7 @@ ec_point_proj_fpx_comb2t_mult(ec_point_proj_p point,
     ec_point_proj_fpx_comb2t_mult_data_p mult_data, bn_p d, ec_curve_p curve) {
 	ssize_t i;
 	size_t bit_off;
-	bn_digit_t windex;
+	size_t windex;
 
 	if (NULL == point || NULL == d || NULL == mult_data || NULL == curve)
 		return (EINVAL);
@@ -2169,7 +2169,7 @@ ec_point_affine_fpx_comb1t_mult(ec_point_p point,
     ec_point_fpx_comb1t_mult_data_p mult_data, bn_p d, ec_curve_p curve) {
 	ssize_t i;
 	size_t bit_off;
-	bn_digit_t windex;
+	size_t windex;
 
 	if (NULL == point || NULL == mult_data || NULL == d || NULL == curve)
 		return (EINVAL);
@@ -2234,7 +2234,7 @@ ec_point_affine_fpx_comb2t_mult(ec_point_p point,
     ec_point_fpx_comb2t_mult_data_p mult_data, bn_p d, ec_curve_p curve) {
 	ssize_t i;
 	size_t bit_off;
-	bn_digit_t windex;
+	size_t windex;
 
 	if (NULL == point || NULL == mult_data || NULL == d || NULL == curve)
 		return (EINVAL);
